@@ -5,13 +5,15 @@
      full     C19_offset                        the same with the concrete key that carries the paging offset (fix F16):
                                                 no assumption relating keys and the wrapped store is left
      partial  C19_sequential_single_handle_partial   the pre-F16 key: requests with Offset = 0 or MaxElements <= 0
+     full     C19_cancelled_lookups             one handle, histories with lookups cancelled by the caller after k elements
      full     C19_read_only_any_handles         any number of handles as long as nothing is written through the wrapper
      full     C19_one_handle_per_graph          any number of handles, reads and writes, at most one handle per graph
      full     C19_no_overlap_answers_current / C19_no_overlap_linearizable
                                                 small-step model, one shared handle, any number of threads, every
                                                 interleaving in which no read overlaps a write
      refuted  C19_offset_refuted (pre-F16 key; fixed), C19_truncated_cached_refuted (pre-F22 store rule; fixed),
-              C19_second_handle_refuted, C19_stale_after_write_refuted, C19_late_store_refuted
+              C19_second_handle_refuted, C19_stale_after_write_refuted, C19_late_store_refuted,
+              C19_cancelled_miss_leaks_refuted
               (witnesses replayed on the real code) *)
 From Coq Require Import List NArith ZArith Bool Arith.
 From Coq.Strings Require Import Byte.
@@ -95,6 +97,52 @@ Example C19_partial_domain_example :
   D0 N (mkQ OTriples (mkLO 0 None None true None 3) []) = true /\
   D0 N (mkQ OTriples (mkLO 2 None None false None 1) []) = false.
 Proof. vm_compute. repeat split. Qed.
+
+(* ------------------------------------------------------------------------------------------------ lookups cancelled by the caller *)
+(* Memo.handle_step_c: the caller takes k elements, cancels its context and stops receiving.  One handle, all histories
+   mixing ordinary requests and cancelled lookups: a cancelled lookup hands over exactly the first k elements of the wrapped
+   store's answer of that moment (all of it when it has no more than k), every other request gets the wrapped store's
+   answer - a cancelled miss stores nothing - and unless a forwarded lookup was left blocked (flag lk) the whole history ran. *)
+Theorem C19_cancelled_lookups :
+  forall (istate gid wreq query elem err K : Type)
+         (is_exist : query -> bool) (key : query -> K) (K_eqb : K -> K -> bool)
+         (inner_step : istate -> gid -> @req wreq query -> istate * @answer elem err)
+         (D : query -> bool) (cancelled : err),
+    (forall a b, K_eqb a b = true <-> a = b) ->
+    (forall s g q, fst (inner_step s g (Read q)) = s) ->
+    (forall s g q1 q2, D q1 = true -> D q2 = true -> key q1 = key q2 -> is_exist q1 = is_exist q2 ->
+                       snd (inner_step s g (Read q1)) = snd (inner_step s g (Read q2))) ->
+    forall (s : istate) (g : gid) (rs : list (@creq wreq query)),
+      Forall (fun r => match r with CPlain (Read q) => D q = true | CCancel q _ => D q = true | _ => True end) rs ->
+      let '(m, out, lk) := memo_run_c istate gid wreq query elem err K is_exist key K_eqb inner_step cancelled
+                                      (mkM s [fresh g]) (map (CDo 0) rs) in
+      delivered wreq query elem err is_exist rs out
+                (ref_answers istate gid wreq query elem err inner_step s g rs)
+      /\ (lk = false -> length out = length rs).
+Proof.
+  intros istate gid wreq query elem err K is_exist key K_eqb inner_step D cancelled HK Hp Hk s g rs HD.
+  exact (cancelled_single_handle istate gid wreq query elem err K is_exist key K_eqb HK inner_step D Hp Hk cancelled
+           rs s (fresh g) (coh_fresh istate gid wreq query elem err K is_exist key K_eqb inner_step D s g) HD).
+Qed.
+Print Assumptions C19_cancelled_lookups.
+
+(* ... but a cancelled MISS is not drained: with four triples and a caller that stops after one, the forwarded lookup
+   is left blocked for ever (flag true) - with storage/memory it keeps the graph's read lock and later writes block *)
+Theorem C19_cancelled_miss_leaks_refuted :
+  exists (init : list N) (k : nat),
+    snd (memo_run_c (list N) N twreq tquery N N (ckey N) cq_is_exist key_v1 (ckey_eqb N.eqb) tiny_step 7%N
+                    (mkM init [fresh 0%N]) [CDo 0 (CCancel (t_list 0 0) k)]) = true.
+Proof. exists [1;2;3;4]%N, 1. vm_compute. reflexivity. Qed.
+Print Assumptions C19_cancelled_miss_leaks_refuted.
+
+(* the cancelled lookup and the same lookup afterwards, on the model: prefix + error, then the complete answer *)
+Example C19_cancelled_then_again_example :
+  memo_run_c (list N) N twreq tquery N N (ckey N) cq_is_exist key_v1 (ckey_eqb N.eqb) tiny_step 7%N
+             (mkM [1;2]%N [fresh 0%N])
+             [CDo 0 (CCancel (t_list 0 0) 1); CDo 0 (CPlain (rd_list 0 0)); CDo 0 (CCancel (t_list 0 0) 1)]
+  = (mkM [1;2]%N [store_list N N (ckey N) (fresh 0%N) (key_v1 (t_list 0 0)) [1;2]%N],
+     [AList [1%N] (Some 7%N); AList [1;2]%N None; AList [1%N] None], false).
+Proof. vm_compute. reflexivity. Qed.
 
 (* ------------------------------------------------------------------------------------------------ several handles, reads only *)
 Theorem C19_read_only_any_handles :
